@@ -481,3 +481,29 @@ Proof.
   rewrite (map_ext_Forall (rap_row den minp) (fun r => (Fin (rap_spec minp r), rap_thr_spec den minp r)) wpos _ (wpos_labels L _)
              (fun r Hr => rap_row_spec den minp r Hr Hm)). reflexivity.
 Qed.
+
+(* ------------------------------------------------------------------------------------------ *)
+(* order-insensitivity of the PR spec (hence of compute, through algo = spec)                 *)
+(* ------------------------------------------------------------------------------------------ *)
+Lemma dset_perm l l' : Permutation l l' -> dset l = dset l'.
+Proof.
+  intros H. apply sorted_lt_unique; try apply dset_sorted. intros d. rewrite !dset_in.
+  split; apply Permutation_in; [|symmetry]; exact H.
+Qed.
+Theorem prc_spec_perm l l' : Permutation l l' -> prc_spec l = prc_spec l'.
+Proof.
+  intros H. unfold prc_spec. rewrite (dset_perm _ _ (Permutation_map sc H)).
+  assert (Hp : forall d, prec_at l d = prec_at l' d).
+  { intros d. unfold prec_at. rewrite (Pge_perm d _ _ H), (Nge_perm d _ _ H). reflexivity. }
+  assert (Hr : forall d, rec_at l d = rec_at l' d).
+  { intros d. unfold rec_at. change (sumq (map pw l)) with (sumf pw l). change (sumq (map pw l')) with (sumf pw l').
+    rewrite (sumf_perm pw _ _ H), (Pge_perm d _ _ H). reflexivity. }
+  rewrite (map_ext _ _ Hp), (map_ext _ _ Hr). reflexivity.
+Qed.
+Theorem bprc_algo_perm l l' : wpos l -> Permutation l l' -> bprc_algo l = bprc_algo l'.
+Proof.
+  intros Hw H. rewrite (bprc_algo_spec l Hw), (bprc_algo_spec l' (wpos_perm _ _ H Hw)).
+  destruct l as [|x l]; [apply Permutation_nil in H; subst; reflexivity|].
+  destruct l' as [|x' l']; [apply Permutation_sym, Permutation_nil in H; discriminate|].
+  unfold bprc_spec. rewrite (prc_spec_perm _ _ H). reflexivity.
+Qed.
